@@ -16,6 +16,7 @@ if [ $SUITE = false ] && grep -q "TestSaveLoadCache" /tmp/trial_suite_$N.log; th
   # known pre-existing flake (hang in TestSaveLoadCache/ok): retry once
   SUITE=true; timeout 900 go test -vet=off -count=1 -timeout 400s ./... >/tmp/trial_suite_$N.log 2>&1 || SUITE=false
 fi
+cp -r $D $WT/$(basename $D) 2>/dev/null
 bash $D/demo.sh >/tmp/trial_demo_$N.log 2>&1 && DW=false || DW=true
 # checks against the patched worktree, from a scratch copy of /verif
 rsync -a --exclude .git --exclude out --exclude .scratch /verif/ $VT/
@@ -28,6 +29,7 @@ for p in "$@"; do
   RES="$RES\"$p\":{\"rc\":$rc,\"violations\":$viol,\"no_failing_input\":$nf},"
 done
 git checkout -q -- . ; git clean -fdq >/dev/null 2>&1
+cp -r $D $WT/$(basename $D) 2>/dev/null
 bash $D/demo.sh >/tmp/trial_demo2_$N.log 2>&1 && DO=true || DO=false
 echo "{\"name\":\"$N\",\"applies\":true,\"builds\":true,\"suite_pass\":$SUITE,\"demo_fails_with\":$DW,\"demo_passes_without\":$DO,\"head\":\"$(git -C /repo rev-parse --short HEAD)\",\"verif\":\"$(git -C /verif rev-parse --short HEAD)\",\"checks\":{${RES%,}}}" > $OUT
 cat $OUT
